@@ -131,9 +131,9 @@ def strip_coq_comments(src: str) -> str:
 def hygiene():
     """Fail closed on Admitted/Axiom/... anywhere in the development (comments stripped)."""
     bad = []
-    for root, _, files in os.walk(THEORIES):
+    for root, _, files in list(os.walk(THEORIES)) + list(os.walk(os.path.join(COQ, "templates"))):
         for f in files:
-            if f.endswith(".v"):
+            if f.endswith(".v") or f.endswith(".v.in"):
                 p = os.path.join(root, f)
                 src = strip_coq_comments(open(p).read())
                 for m in HYGIENE_RE.finditer(src):
